@@ -67,15 +67,25 @@ def ixor (a b : W) : W := a ^^^ b
 def inot (a : W) : W := ~~~a
 /-- `ishl`: "shift first input left by k bits where k is unsigned interpretation of second input
     (leftmost bits dropped, rightmost bits set to zero" -/
-def ishl (a b : W) : W := a <<< b.toNat
+def ishl (a b : W) : W := if 64 ≤ b.toNat then 0 else a <<< b.toNat   -- (all bits dropped for counts ≥ 64; `ishl_eq`)
 /-- `ishr`: "shift first input right by k bits where k is unsigned interpretation of second input
     (rightmost bits dropped, leftmost bits set to zero)" — a *logical* shift -/
 def ishr (a b : W) : W := a >>> b.toNat
 /-- `iabs`: "convert signed to unsigned by taking absolute value" -/
 def iabs (a : W) : W := BitVec.ofNat 64 a.toInt.natAbs
+/-- square-and-multiply with fuel (`fuel` > log₂ of the exponent) -/
+def powFast (a : W) : Nat → Nat → W
+  | 0, _ => 1
+  | fuel + 1, n =>
+    if n = 0 then 1
+    else
+      let h := powFast (a * a) fuel (n / 2)
+      if n % 2 = 1 then h * a else h
+
 /-- `ipow`: "raise first input to the power of second input, the exponent is treated as an unsigned
     integer" (modulo 2^N like `imul`) -/
-def ipow (a b : W) : W := a ^ b.toNat
+def ipow (a b : W) : W := powFast a 65 b.toNat   -- `= a ^ b.toNat` (`Lemmas/IntSem.ipow_eq`), by squaring so that the
+                                                 -- executable model terminates quickly for exponents near 2^64
 
 /-- `idivmod_u`: "given unsigned integers 0 <= n < 2^N, 0 <= m < 2^N, generates unsigned q, r where
     q*m+r=n, 0<=r<m (m=0 will call panic)" -/
